@@ -47,7 +47,11 @@ CORE = ['RJ', 'OKh', 'OKx', 'OK0', 'OKw', 'Dh', 'Dj', 'D0', 'ER', 'AG', 'UK', 'E
 # near-commands: a real command word with foreign bytes in it, glued to something, or a word of the other side
 NEAR = {'OKn': b'O\xc3\xa9K ' + GUIDHEX, 'OKz': b'OK\xe2\x80\x8b ' + GUIDHEX, 'RJn': b'\xe2\x80\x8bREJECTED',
         'AGn': b'AGREE\xc2\xa0_UNIX_FD', 'ERn': b'ERR\xc3\x96OR', 'OKAY': b'OKAY ' + GUIDHEX, 'AGx': b'AGREE_UNIX_FDS',
-        'RJx': b'REJECTEDX EXTERNAL', 'BGs': b'BEGIN', 'AUs': b'AUTH EXTERNAL'}
+        'RJx': b'REJECTEDX EXTERNAL', 'BGs': b'BEGIN', 'AUs': b'AUTH EXTERNAL',
+        # the command word set off by something other than the single blank, or not at the start of the line
+        'OKt': b'OK\t' + GUIDHEX, 'OKlt': b'\tOK ' + GUIDHEX, 'OKls': b' OK ' + GUIDHEX, 'OKv': b'OK\x0b' + GUIDHEX,
+        'OKf': b'OK\x0c' + GUIDHEX, 'RJt': b'REJECTED\tEXTERNAL', 'RJl': b' REJECTED', 'Dt': b'DATA\t6162',
+        'AGl': b'\tAGREE_UNIX_FD', 'AGt': b'AGREE_UNIX_FD\t'}
 LETTERS.update(NEAR)
 
 
